@@ -202,6 +202,63 @@ Proof.
   exists p, req. auto.
 Qed.
 
+(* ---- the same with the admissible choice (a verifying datagram with an irregular Message-Authenticator may be
+   ignored): every history of the generalised read loop, for every sequence of choices *)
+Lemma cstep_g_inv (rej : bool) (secret : bytes) (st : pending) (h : list ev) (o : cop) :
+  op_wf o -> cinv st h -> deliveries_authentic secret h ->
+  let '(st', out) := cstep_g md5raw fl rej secret st o in
+  cinv st' (ev_of o out :: h) /\ deliveries_authentic secret (ev_of o out :: h).
+Proof.
+  intros Hwf Hi Hg. unfold cstep_g. destruct o as [i r|d|i]; try (apply cstep_inv; auto).
+  destruct (rej && ma_irregular (truncate d))%bool; [|apply cstep_inv; auto].
+  simpl. split; [|exact Hg]. destruct Hi as [Hl Hs]. split; auto.
+Qed.
+
+Lemma crun_g_inv (secret : bytes) (ops : list (cop * bool)) :
+  Forall op_wf (map fst ops) -> forall st h st' outs,
+  cinv st h -> deliveries_authentic secret h ->
+  crun_g md5raw fl secret st ops = (st', outs) ->
+  cinv st' (rev (events (map fst ops) outs) ++ h) /\
+  deliveries_authentic secret (rev (events (map fst ops) outs) ++ h).
+Proof.
+  induction ops as [|[o rej] ops IH]; intros Hwf st h st' outs Hi Hg Hr; simpl in Hr.
+  - inversion Hr; subst. simpl. auto.
+  - simpl in Hwf. inversion Hwf as [|? ? Ho Hops]; subst.
+    destruct (cstep_g md5raw fl rej secret st o) as [st1 out] eqn:Hs.
+    destruct (crun_g md5raw fl secret st1 ops) as [st2 outs2] eqn:Hr2.
+    inversion Hr; subst. simpl.
+    pose proof (cstep_g_inv rej secret st h o Ho Hi Hg) as Hstep. rewrite Hs in Hstep. destruct Hstep as [Hi1 Hg1].
+    specialize (IH Hops st1 (ev_of o out :: h) st' outs2 Hi1 Hg1 Hr2).
+    rewrite <- app_assoc. simpl. exact IH.
+Qed.
+
+Lemma reply_authentic_g (secret : bytes) (ops : list (cop * bool)) st outs :
+  Forall op_wf (map fst ops) ->
+  crun_g md5raw fl secret pending0 ops = (st, outs) ->
+  deliveries_authentic secret (rev (events (map fst ops) outs)).
+Proof.
+  intros Hwf Hr. pose proof (crun_g_inv secret ops Hwf pending0 [] st outs cinv_init I Hr) as [_ H].
+  rewrite app_nil_r in H. exact H.
+Qed.
+
+(* positive half under every policy: a REGULAR datagram that verifies against the outstanding request is handed over *)
+Lemma regular_genuine_reply_delivered (secret : bytes) (ops : list (cop * bool)) st outs (rej : bool)
+      (d : bytes) (p : packet) (req : bytes) :
+  Forall op_wf (map fst ops) ->
+  crun_g md5raw fl secret pending0 ops = (st, outs) ->
+  parse d = Some p ->
+  awaiting (rev (events (map fst ops) outs)) (p_id p) = Some req ->
+  resp_auth_ok md5raw secret (sub 4 16 req) (truncate d) = true ->
+  ma_resp_ok md5raw secret (sub 4 16 req) (truncate d) = true ->
+  ma_irregular (truncate d) = false ->
+  snd (cstep_g md5raw fl rej secret st (CRecv d)) = Some (p_id p).
+Proof.
+  intros Hwf Hr Hp Ha H1 H2 Hreg.
+  pose proof (crun_g_inv secret ops Hwf pending0 [] st outs cinv_init I Hr) as [Hi _].
+  rewrite app_nil_r in Hi. unfold cstep_g. rewrite Hreg, andb_false_r.
+  apply (crecv_decision secret st _ d (p_id p) Hi). exists p, req. auto.
+Qed.
+
 End P.
 
 (* ------------------------------------------------------------------ CoA / Disconnect admission *)
@@ -890,21 +947,30 @@ Proof. destruct o; simpl; try discriminate; auto. Qed.
 Lemma effect_is_reply o e : effect o = Some e -> exists cl st r, o = OReply cl st r (Some e).
 Proof. destruct o; simpl; try discriminate. intros ->. eauto. Qed.
 
-Lemma effect_has_key cfg now src bus raw e :
-  effect (coa_step md5raw fl cfg now src bus raw) = Some e -> exists k, dedup_key cfg src raw = Some k.
+Lemma coa_step_g_effect rej cfg now src bus raw e :
+  effect (coa_step_g md5raw fl rej cfg now src bus raw) = Some e ->
+  effect (coa_step md5raw fl cfg now src bus raw) = Some e.
 Proof.
+  unfold coa_step_g. destruct (rej && ma_irregular (truncate raw) && reached_worker _)%bool; [|auto].
+  destruct (coa_step md5raw fl cfg now src bus raw); simpl; discriminate.
+Qed.
+
+Lemma effect_has_key rej cfg now src bus raw e :
+  effect (coa_step_g md5raw fl rej cfg now src bus raw) = Some e -> exists k, dedup_key cfg src raw = Some k.
+Proof.
+  intros H. apply coa_step_g_effect in H. revert H.
   unfold coa_step, dedup_key. destruct (find_client 0 (clients cfg) src) as [[cl c]|]; [eauto|discriminate].
 Qed.
 
 (* a known key takes no effect *)
-Lemma step_known_no_effect cfg now src bus raw seen sec k r :
+Lemma step_known_no_effect rej cfg now src bus raw seen sec k r :
   dedup_key cfg src raw = Some (sec, k) -> cache_find sec k seen = Some r ->
-  effect (fst (coa_step_st md5raw fl cfg now src bus raw seen)) = None.
+  effect (fst (coa_step_st md5raw fl rej cfg now src bus raw seen)) = None.
 Proof.
   intros Hk Hf. unfold coa_step_st. rewrite Hdd, Hk, Hf. simpl andb.
-  destruct (reached_worker (coa_step md5raw fl cfg now src bus raw)) eqn:Hr.
-  - destruct (coa_step md5raw fl cfg now src bus raw); reflexivity.
-  - simpl. destruct (effect (coa_step md5raw fl cfg now src bus raw)) eqn:He; [|reflexivity].
+  destruct (reached_worker (coa_step_g md5raw fl rej cfg now src bus raw)) eqn:Hr.
+  - destruct (coa_step_g md5raw fl rej cfg now src bus raw); reflexivity.
+  - simpl. destruct (effect (coa_step_g md5raw fl rej cfg now src bus raw)) eqn:He; [|reflexivity].
     apply effect_reached in He. congruence.
 Qed.
 
@@ -913,33 +979,33 @@ Lemma cache_find_cons sec k c sec' k' r' :
 Proof. simpl. destruct (beq sec sec' && beq k k')%bool; [discriminate|auto]. Qed.
 
 (* the cache only grows *)
-Lemma step_monotone cfg now src bus raw seen sec k :
+Lemma step_monotone rej cfg now src bus raw seen sec k :
   cache_find sec k seen <> None ->
-  cache_find sec k (snd (coa_step_st md5raw fl cfg now src bus raw seen)) <> None.
+  cache_find sec k (snd (coa_step_st md5raw fl rej cfg now src bus raw seen)) <> None.
 Proof.
   intros H. unfold coa_step_st. destruct (f_dedup fl && reached_worker _)%bool; [|exact H].
   destruct (dedup_key cfg src raw) as [[s1 k1]|]; [|exact H].
   destruct (cache_find s1 k1 seen); [exact H|].
-  destruct (coa_step md5raw fl cfg now src bus raw); try exact H. simpl snd. apply cache_find_cons; exact H.
+  destruct (coa_step_g md5raw fl rej cfg now src bus raw); try exact H. simpl snd. apply cache_find_cons; exact H.
 Qed.
 
 (* a step that takes effect leaves its key in the cache *)
-Lemma step_effect_remembered cfg now src bus raw seen e sec k :
-  effect (fst (coa_step_st md5raw fl cfg now src bus raw seen)) = Some e ->
+Lemma step_effect_remembered rej cfg now src bus raw seen e sec k :
+  effect (fst (coa_step_st md5raw fl rej cfg now src bus raw seen)) = Some e ->
   dedup_key cfg src raw = Some (sec, k) ->
-  cache_find sec k (snd (coa_step_st md5raw fl cfg now src bus raw seen)) <> None.
+  cache_find sec k (snd (coa_step_st md5raw fl rej cfg now src bus raw seen)) <> None.
 Proof.
   unfold coa_step_st. rewrite Hdd. simpl andb. intros He Hk. rewrite Hk in *.
-  destruct (reached_worker (coa_step md5raw fl cfg now src bus raw)) eqn:Hr.
+  destruct (reached_worker (coa_step_g md5raw fl rej cfg now src bus raw)) eqn:Hr.
   - destruct (cache_find sec k seen) as [c|] eqn:Hf.
-    + exfalso. destruct (coa_step md5raw fl cfg now src bus raw); simpl in He; discriminate.
-    + destruct (coa_step md5raw fl cfg now src bus raw) eqn:Ho; simpl in He; try discriminate.
+    + exfalso. destruct (coa_step_g md5raw fl rej cfg now src bus raw); simpl in He; discriminate.
+    + destruct (coa_step_g md5raw fl rej cfg now src bus raw) eqn:Ho; simpl in He; try discriminate.
       simpl snd. simpl. rewrite !beq_refl. discriminate.
   - simpl in He. apply effect_reached in He. congruence.
 Qed.
 
 Definition key_of (cfg : coacfg) (i : coa_input) : option (bytes * bytes) :=
-  let '(_, src, _, raw) := i in dedup_key cfg src raw.
+  let '(_, src, _, raw, _) := i in dedup_key cfg src raw.
 
 (* once a key is in the cache, no later datagram with that key takes effect *)
 Lemma run_known_no_effect cfg : forall ins seen sec k j i,
@@ -947,14 +1013,14 @@ Lemma run_known_no_effect cfg : forall ins seen sec k j i,
   nth_error ins j = Some i -> key_of cfg i = Some (sec, k) ->
   forall o, nth_error (coa_run md5raw fl cfg seen ins) j = Some o -> effect o = None.
 Proof.
-  induction ins as [|[[[now src] bus] raw] r IH]; intros seen sec k j i Hs Hn Hk o Ho; [destruct j; discriminate|].
-  simpl in Ho. destruct (coa_step_st md5raw fl cfg now src bus raw seen) as [o1 seen1] eqn:Hst.
+  induction ins as [|[[[[now src] bus] raw] rej] r IH]; intros seen sec k j i Hs Hn Hk o Ho; [destruct j; discriminate|].
+  simpl in Ho. destruct (coa_step_st md5raw fl rej cfg now src bus raw seen) as [o1 seen1] eqn:Hst.
   destruct j as [|j]; simpl in Hn, Ho.
   - inversion Hn; subst i. inversion Ho; subst o. simpl in Hk.
     destruct (cache_find sec k seen) as [c|] eqn:Hf; [|congruence].
-    pose proof (step_known_no_effect cfg now src bus raw seen sec k c Hk Hf) as H. rewrite Hst in H. exact H.
+    pose proof (step_known_no_effect rej cfg now src bus raw seen sec k c Hk Hf) as H. rewrite Hst in H. exact H.
   - eapply (IH seen1 sec k j i); eauto.
-    pose proof (step_monotone cfg now src bus raw seen sec k Hs) as H. rewrite Hst in H. exact H.
+    pose proof (step_monotone rej cfg now src bus raw seen sec k Hs) as H. rewrite Hst in H. exact H.
 Qed.
 
 (* single execution: in any history of datagrams, two datagrams with the same key (same client secret, same
@@ -967,17 +1033,34 @@ Lemma single_execution cfg : forall ins seen j1 j2 i1 i2 o1 o2 key,
   nth_error (coa_run md5raw fl cfg seen ins) j2 = Some o2 ->
   effect o1 <> None -> effect o2 = None.
 Proof.
-  induction ins as [|[[[now src] bus] raw] r IH]; intros seen j1 j2 i1 i2 o1 o2 [sec k] Hlt H1 H2 K1 K2 O1 O2 He;
+  induction ins as [|[[[[now src] bus] raw] rej] r IH]; intros seen j1 j2 i1 i2 o1 o2 [sec k] Hlt H1 H2 K1 K2 O1 O2 He;
     [destruct j1; discriminate|].
-  simpl in O1, O2. destruct (coa_step_st md5raw fl cfg now src bus raw seen) as [oo seen1] eqn:Hst.
+  simpl in O1, O2. destruct (coa_step_st md5raw fl rej cfg now src bus raw seen) as [oo seen1] eqn:Hst.
   destruct j2 as [|j2]; [lia|]. simpl in H2, O2.
   destruct j1 as [|j1]; simpl in H1, O1.
   - inversion H1; subst i1. inversion O1; subst oo. simpl in K1.
     destruct (effect o1) as [e|] eqn:Heo; [|congruence].
-    pose proof (step_effect_remembered cfg now src bus raw seen e sec k) as Hr. rewrite Hst in Hr.
+    pose proof (step_effect_remembered rej cfg now src bus raw seen e sec k) as Hr. rewrite Hst in Hr.
     specialize (Hr Heo K1).
     eapply (run_known_no_effect cfg r seen1 sec k j2 i2); eauto.
   - eapply (IH seen1 j1 j2 i1 i2 o1 o2 (sec, k)); eauto. lia.
 Qed.
 
 End W.
+
+(* ------------------------------------------------------------------ admissible rejections never add effects *)
+Section X.
+Variable md5raw : bytes -> bytes.
+Lemma coa_step_g_effect_any fl rej cfg now src bus raw e :
+  effect (coa_step_g md5raw fl rej cfg now src bus raw) = Some e ->
+  effect (coa_step md5raw fl cfg now src bus raw) = Some e.
+Proof.
+  unfold coa_step_g. destruct (rej && ma_irregular (truncate raw) && reached_worker _)%bool; [|auto].
+  destruct (coa_step md5raw fl cfg now src bus raw); simpl; discriminate.
+Qed.
+(* ... and on a request with a regular Message-Authenticator the choice does not exist *)
+Lemma coa_step_g_regular fl rej cfg now src bus raw :
+  ma_irregular (truncate raw) = false ->
+  coa_step_g md5raw fl rej cfg now src bus raw = coa_step md5raw fl cfg now src bus raw.
+Proof. intros H. unfold coa_step_g. rewrite H, andb_false_r. reflexivity. Qed.
+End X.
